@@ -10,6 +10,7 @@ import Driver.Assoc
 import Driver.Shape
 import Driver.Loader
 import Driver.Borrow
+import Driver.Collider
 /-! `grdriver <mode>`: one input line → one output line (DESIGN.md §2 "line protocol") -/
 open Driver
 
@@ -42,6 +43,7 @@ def main (args : List String) : IO UInt32 := do
   | ["loader"] => loop stdin stdout Loader.step; return 0
   | ["borrow"] => loop stdin stdout Borrow.step; return 0
   | ["adv"] => loop stdin stdout Borrow.stepAdv; return 0
+  | ["coll"] => loop stdin stdout Collider.step; return 0
   | ["assoc"] => loop stdin stdout Assoc.step; return 0
   | ["lz4io"] => loopIO stdin stdout Lz4.stepIO; return 0
   | _ => IO.eprintln "usage: grdriver <mode>"; return 2
